@@ -3577,7 +3577,7 @@ def cli_main():
 
     # validate the hex offset before any output file gets (over)written
     hex_offset = None
-    if args.hex_offset:
+    if args.hex_offset is not None:
         try:
             hex_offset = int(args.hex_offset, base=0)
         except ValueError:
